@@ -88,3 +88,53 @@ func VerifC04URL() {
 	verifrt.Observe("requests", len(reqs))
 	verifrt.Reach("end")
 }
+
+// VerifC04Redirects: nothing a server says - cookies, authentication
+// challenges, any other header next to Location, on the redirect or on the
+// final answer - shows up in a later request, on the next hop or in the next
+// fetch: every request is exactly request line + Host + Accept for its URL.
+func VerifC04Redirects() {
+	extras := []string{
+		"",
+		"Set-Cookie: sid=abc; Path=/\r\n",
+		"Set-Cookie: a=1\r\nset-cookie: b=2; Secure\r\n",
+		"WWW-Authenticate: Basic realm=\"x\"\r\nProxy-Authenticate: Basic\r\n",
+		"Link: </other>; rel=preload\r\nETag: \"v1\"\r\nAlt-Svc: h2=\":443\"\r\n",
+		"Accept: text/html\r\nUser-Agent: echo-me\r\nReferer: https://t.example/\r\nAuthorization: Bearer t\r\n",
+	}
+	extra := extras[verifrt.Choice("extra", len(extras))]
+	d := verifrt.Byte("status")
+	verifrt.Assume(verifrt.InSet(d, "12378"))
+	same := verifrt.Choice("samehost", 2) == 1
+	target := VHostB
+	if same {
+		target = VHostA
+	}
+	loc := "https://" + target + "/next?x=1"
+	if same && verifrt.Choice("relative", 2) == 1 {
+		loc = "/next?x=1"
+	}
+	doc := "HTTP/1.0 200 OK\r\n" + extra + "Content-Type: application/activity+json\r\n\r\n{\"k\":1}"
+	w := NewWorld()
+	w.Routes[VHostA+"/start"] = NewResp("HTTP/1.0 30" + string([]byte{d}) + " Moved\r\n" + extra + "Location: " + loc + "\r\n\r\n")
+	w.Routes[target+"/next?x=1"] = NewResp(doc)
+	w.Routes[VHostA+"/other"] = NewResp(doc)
+	VerifUseWorld(w, 2)
+	start, _ := url.Parse("https://" + VHostA + "/start")
+	other, _ := url.Parse("https://" + VHostA + "/other")
+	_, _, err1 := Get(start, c03Accept, c03Tolerated, 2)
+	_, _, err2 := Get(other, c03Accept, c03Tolerated, 2)
+	verifrt.Assert(err1 == nil && err2 == nil, "both-fetches-succeed")
+	reqs := VerifRequests()
+	want := [][2]string{{VHostA, "/start"}, {target, "/next?x=1"}, {VHostA, "/other"}}
+	verifrt.Assert(len(reqs) == len(want), "one-request-per-hop-and-fetch")
+	for i, r := range reqs {
+		VerifCheckRequest(r, c03Accept)
+		if i < len(want) {
+			verifrt.Assert(r.Host == want[i][0], "connection-goes-to-the-host-of-the-hop")
+			verifrt.Assert(r.Raw == "GET "+want[i][1]+" HTTP/1.0\r\nHost: "+want[i][0]+"\r\nAccept: "+c03Accept+"\r\n\r\n", "request-is-exactly-line-host-accept")
+		}
+	}
+	verifrt.Observe("requests", len(reqs))
+	verifrt.Reach("end")
+}
